@@ -49,52 +49,79 @@ pub fn decode_nat<R>(r: &mut R) -> Result<u128>
 where
     R: io::Read + ?Sized,
 {
-    let mut result = 0;
-    let mut shift = 0;
+    let mut result: u128 = 0;
+    let mut shift: u32 = 0;
     loop {
         let mut buf = [0];
         r.read_exact(&mut buf)?;
-        if shift == 127 && buf[0] != 0x00 && buf[0] != 0x01 {
+        let low_bits = (buf[0] & !CONTINUATION_BIT) as u128;
+        // Every bit at position 128 or above must be zero; redundant zero groups are fine.
+        let overflow = if shift < 128 {
+            let fits = low_bits << shift;
+            result |= fits;
+            fits >> shift != low_bits
+        } else {
+            low_bits != 0
+        };
+        if overflow {
             while buf[0] & CONTINUATION_BIT != 0 {
                 r.read_exact(&mut buf)?;
             }
             return Err(Error::msg("nat overflow"));
         }
-        let low_bits = (buf[0] & !CONTINUATION_BIT) as u128;
-        result |= low_bits << shift;
         if buf[0] & CONTINUATION_BIT == 0 {
             return Ok(result);
         }
-        shift += 7;
+        shift = shift.saturating_add(7);
     }
 }
 pub fn decode_int<R>(r: &mut R) -> Result<i128>
 where
     R: io::Read + ?Sized,
 {
-    let mut result = 0;
-    let mut shift = 0;
-    let size = 128;
+    let mut result: u128 = 0;
+    let mut shift: u32 = 0;
+    // Bits at position 128 or above must all equal the sign, which is only known at the last byte.
+    let mut high_zeros = true;
+    let mut high_ones = true;
     let mut byte;
     loop {
         let mut buf = [0];
         r.read_exact(&mut buf)?;
         byte = buf[0];
-        if shift == 127 && byte != 0x00 && byte != 0x7f {
-            while buf[0] & CONTINUATION_BIT != 0 {
-                r.read_exact(&mut buf)?;
+        let low_bits = (byte & !CONTINUATION_BIT) as u128;
+        if shift < 128 {
+            result |= low_bits << shift;
+            if shift + 7 > 128 {
+                let kept = 128 - shift;
+                let high = low_bits >> kept;
+                high_zeros &= high == 0;
+                high_ones &= high == (1 << (7 - kept)) - 1;
             }
-            return Err(Error::msg("int overflow"));
+        } else {
+            high_zeros &= low_bits == 0;
+            high_ones &= low_bits == 0x7f;
         }
-        let low_bits = (byte & !CONTINUATION_BIT) as i128;
-        result |= low_bits << shift;
-        shift += 7;
+        shift = shift.saturating_add(7);
         if byte & CONTINUATION_BIT == 0 {
             break;
         }
     }
-    if shift < size && (byte & SIGN_BIT) == SIGN_BIT {
-        result |= !0 << shift;
+    let negative = (byte & SIGN_BIT) == SIGN_BIT;
+    if shift < 128 {
+        if negative {
+            result |= !0u128 << shift;
+        }
+    } else {
+        let top = result >> 127 == 1;
+        let fits = if negative {
+            top && high_ones
+        } else {
+            !top && high_zeros
+        };
+        if !fits {
+            return Err(Error::msg("int overflow"));
+        }
     }
-    Ok(result)
+    Ok(result as i128)
 }
